@@ -108,15 +108,17 @@ func unembedRound(pkgs []*packages.Package, overlay map[string][]byte) (map[stri
 			var fieldVar *types.Var
 			for tn, s := range structs {
 				for _, fl := range s.st.Fields.List {
-					if len(fl.Names) != 0 {
+					id, ok := fl.Type.(*ast.Ident)
+					if !ok || info.Uses[id] != types.Object(eTN) {
 						continue
 					}
-					id, ok := fl.Type.(*ast.Ident)
-					if ok && info.Uses[id] == types.Object(eTN) {
-						if host != nil {
-							continue nextE
-						}
-						host, hostTN, embedded = s, tn, fl
+					if host != nil || len(fl.Names) > 1 {
+						continue nextE
+					}
+					host, hostTN, embedded = s, tn, fl
+					if len(fl.Names) == 1 {
+						fieldVar, _ = info.Defs[fl.Names[0]].(*types.Var) // a named field of type E: `cache rendering`
+					} else {
 						fieldVar, _ = info.Defs[id].(*types.Var)
 					}
 				}
@@ -129,6 +131,9 @@ func unembedRound(pkgs []*packages.Package, overlay map[string][]byte) (map[stri
 					continue nextE
 				}
 			}
+			if !anchorTypes[pkg.PkgPath+"."+host.name] {
+				continue // only structs the rules know are worth restoring
+			}
 			if !portableFieldTypes(pkg, e.st, e.file, host.file) {
 				continue
 			}
@@ -136,7 +141,9 @@ func unembedRound(pkgs []*packages.Package, overlay map[string][]byte) (map[stri
 			taken := map[string]bool{}
 			for _, fl := range host.st.Fields.List {
 				for _, nm := range fl.Names {
-					taken[nm.Name] = true
+					if fl != embedded {
+						taken[nm.Name] = true
+					}
 				}
 			}
 			hostNamed, _ := hostTN.Type().(*types.Named)
@@ -147,13 +154,17 @@ func unembedRound(pkgs []*packages.Package, overlay map[string][]byte) (map[stri
 			for i := 0; i < hostNamed.NumMethods(); i++ {
 				taken[hostNamed.Method(i).Name()] = true
 			}
-			var fieldNames []string
-			for _, fl := range e.st.Fields.List {
-				for _, nm := range fl.Names {
-					if taken[nm.Name] {
-						continue nextE
+			var fieldNames, fieldTypes []string
+			{
+				esrc := readSource(fileOf(e.file.Pos()), overlay)
+				for _, fl := range e.st.Fields.List {
+					for _, nm := range fl.Names {
+						if taken[nm.Name] {
+							continue nextE
+						}
+						fieldNames = append(fieldNames, nm.Name)
+						fieldTypes = append(fieldTypes, string(esrc[off(fl.Type.Pos()):off(fl.Type.End())]))
 					}
-					fieldNames = append(fieldNames, nm.Name)
 				}
 			}
 			for i := 0; i < eNamed.NumMethods(); i++ {
@@ -220,8 +231,16 @@ func unembedRound(pkgs []*packages.Package, overlay map[string][]byte) (map[stri
 								}
 							}
 						}
+						// `x.field = E{…}`: rewritten with the store below
+						if lit, ok := p.(*ast.CompositeLit); ok && lit.Type == id {
+							if as, ok := parent[lit].(*ast.AssignStmt); ok && wholeStore(as, lit) != nil {
+								return true
+							}
+						}
 						why = "type " + e.name + " used at " + fset.Position(id.Pos()).String()
 						return false
+					case info.Defs[id] == types.Object(fieldVar):
+						return true // the declaration, replaced below
 					case info.Uses[id] == types.Object(fieldVar):
 						p := parent[id]
 						if kv, ok := p.(*ast.KeyValueExpr); ok && kv.Key == id {
@@ -238,7 +257,42 @@ func unembedRound(pkgs []*packages.Package, overlay map[string][]byte) (map[stri
 								return true
 							}
 						}
-						why = "embedded field used as a value at " + fset.Position(id.Pos()).String()
+						// `x.field = E{a: v, …}` becomes `x.a, … = v, …` (all operands evaluated first, as before)
+						if sel, ok := p.(*ast.SelectorExpr); ok && sel.Sel == id {
+							if as, ok := parent[sel].(*ast.AssignStmt); ok && len(as.Lhs) == 1 && as.Lhs[0] == ast.Expr(sel) {
+								if lit, ok := as.Rhs[0].(*ast.CompositeLit); ok && wholeStore(as, lit) == sel && isSimpleOperand(sel.X) {
+									if tid, ok := lit.Type.(*ast.Ident); ok && info.Uses[tid] == types.Object(eTN) {
+										vals := map[string]string{}
+										okLit := true
+										for i, el := range lit.Elts {
+											if ikv, ok := el.(*ast.KeyValueExpr); ok {
+												if k, ok := ikv.Key.(*ast.Ident); ok {
+													vals[k.Name] = text(ikv.Value)
+												} else {
+													okLit = false
+												}
+											} else if i < len(fieldNames) {
+												vals[fieldNames[i]] = text(el)
+											}
+										}
+										if okLit {
+											var ls, rs []string
+											for i, fnm := range fieldNames {
+												ls = append(ls, text(sel.X)+"."+fnm)
+												if v, has := vals[fnm]; has {
+													rs = append(rs, v)
+												} else {
+													rs = append(rs, "*new("+fieldTypes[i]+")")
+												}
+											}
+											add(as.Pos(), as.End(), strings.Join(ls, ", ")+" = "+strings.Join(rs, ", "))
+											return false
+										}
+									}
+								}
+							}
+						}
+						why = "field of type " + e.name + " used as a value at " + fset.Position(id.Pos()).String()
 						return false
 					}
 					return true
@@ -302,4 +356,14 @@ func unembedRound(pkgs []*packages.Package, overlay map[string][]byte) (map[stri
 		return nil, append(log, "unembedding skipped (overlapping edits)")
 	}
 	return out, log
+}
+
+// wholeStore: as is `x.f = lit` (one plain assignment of a composite literal
+// to a field selection); the selection, or nil.
+func wholeStore(as *ast.AssignStmt, lit *ast.CompositeLit) *ast.SelectorExpr {
+	if as.Tok != token.ASSIGN || len(as.Lhs) != 1 || len(as.Rhs) != 1 || as.Rhs[0] != ast.Expr(lit) {
+		return nil
+	}
+	sel, _ := as.Lhs[0].(*ast.SelectorExpr)
+	return sel
 }
